@@ -176,8 +176,11 @@ CLAIMED = {
         "(array_element_bits); instance bundles (instbundle_expansion over the model of InstBundleElabPass: one instance per member, member-wise / "
         "by-name / broadcast connections, refusals; compared with the real pass per member instance); instance arrays (array_expansion, array_pass_accepts_iff, "
         "array_parts_partition over the model of ArrayFlattener: n instances with the array's ports, broadcast or the k-th w bits per element, accepted iff every "
-        "width is w or n*w; compared with the real pass run alone: element names, bits, refusals). Everything beyond — bundles / anonymous bundles / bundle references, pairs, and the "
-        "composition across hierarchy — is decided by correspondence: Sem.src (Lean, declarative, no reference to any pass) vs "
+        "width is w or n*w; compared with the real pass run alone: element names, bits, refusals); bundle-valued ports (BundleConn.lean, the re-connection BundleFlattener performs: "
+        "bundle_connection_pairs_by_path — one connection per leaf path of the port's type, on the flattened port of that path, holding what the written connection holds at that "
+        "path; bundle_instance_connection_memberwise for an instance of the port's own type of any depth and fan-out; subbundle_reference_is_relative; anonymous_bundle_member_by_name "
+        "for members of any kind in any order; bundle_connection_refusals — compared with the real passes up to BundleFlattener on random types, instances, references and nested "
+        "anonymous bundles: the bits on every flattened port, refusals). Everything beyond — the composition of the passes within a module and across the hierarchy — is decided by correspondence: Sem.src (Lean, declarative, no reference to any pass) vs "
         "Sem.pkg of the real package (Lean, netlister reading) vs the partition read from the spice text, plus leaf devices and "
         "parameters, on generated designs over all constructs in three construction styles.",
         note="Sem.src / Sem.pkg / the net solver are specifications executed by the driver (Design.lean, Pkg.lean, Nets.lean); the "
@@ -258,7 +261,9 @@ CLAIMED = {
         "the generator model to the real cache by random plans of failing / returning bodies and random event trees of nested calls. Further decided by correspondence: every (pass position, module) injection point through custom pass lists, real "
         "design faults, failures in the middle of a pass (the n-th Module.add of the elaboration raises; five exception types; anonymous tops; "
         "the designer renames / edits before trying again), and a generator body raising once, each followed by retry / retry with the default elaborator / export of every "
-        "module not containing the offending one / an unrelated design, in one fresh process per scenario and compared with fresh-process packages.",
+        "module not containing the offending one / an unrelated design, in one fresh process per scenario and compared with fresh-process packages; and a repair stream (the failing child replaced by a healthy module that needs the passes which "
+        "had completed on the parent): six of its fifteen (fault, replacement) pairs are refused with a spurious error on the pinned tree — recorded as known findings (known_findings.json, "
+        "match repair:<fault>/<repair>) and exhibited in the model (done_parent_hides_new_child); a wrong package, or a refusal of any other pair, is a violation.",
         note="Exception texts and BundleFlattener's module-scope cache are covered by the correspondence only.",
         ref="DESIGN.md §6 C08",
         technique="Lean 4 proof (failure invariants of the runner) + fault-injection correspondence in fresh processes",
